@@ -6,7 +6,7 @@ CXX_SOURCES = ['libs/acn/CID.cpp', 'libs/acn/CIDImpl.cpp']
 # Coq models of libc / libuuid (Libc.v) against the platform's functions: a mismatch there means
 # the libc model is wrong, not that OLA violates the property.
 SPEC_KEYS = ['ok', 'v', 'pok', 'pv', 't', 'p', 's', 'rt', 'd', 'back', 'a', 'eq', 'nil', 'wrap', 'n',
-             'pure', 'mis', 'cnt', 'exc', 'ep', 'od', 'sib'] + ['d%d' % i for i in range(1, 12)]
+             'pure', 'mis', 'cnt', 'exc', 'ep', 'od', 'sib', 'dead'] + ['d%d' % i for i in range(1, 12)]
 # keep (out-parameter untouched by a rejected text) is what the code does but is not documented: internal
 INTERNAL_KEYS = []
 
@@ -30,8 +30,13 @@ RULE = ('every value -> text -> value for ALL 8-bit and ALL 16-bit values (both 
         'hex, fill, pending setw) must insert exactly the ToString() text as one string field and leave the '
         'stream state unchanged - a following integer keeps the caller base, a later setw field the caller fill '
         'and adjustment (op strm, text compared with the model); (2) IntToString/ToHex/UID::ToString/'
-        'IPV4Address::ToString called from 2 and 4 threads at once must give 0 wrong conversions (op thr; a '
-        'correct tree can never produce a mismatch, detection of a race is probabilistic); '
+        'IPV4Address/IPV6Address/MAC/CID/socket address/DmxBuffer ToString + operator<< and their parsers called from 2-8 '
+        'threads at once, phase by phase behind a barrier, must give 0 wrong conversions, both in the running harness '
+        '(op thr) and in FRESH re-executed processes where the first use of every conversion happens inside the threaded '
+        'phase (op thrf: first-use races; a dead child counts); a correct tree can never produce a mismatch, detection of a '
+        'race is probabilistic; BYTES every byte >= 0x80 and every control byte replacing the first/middle/last character of a '
+        'valid text, prepended, appended and inserted, for every parse entry point (ints, hex, UID, MAC, IPv4/6, socket '
+        'address, CID, booleans, DMX) and the libc models; '
         'non-trivial = the model accepts the text or the value round-trips; distinct = distinct model output line')
 ASSUMPTIONS = ['LP64 glibc in the "C" locale (strtoul = strtoull, isspace = " \\t\\n\\v\\f\\r"); validated on every run '
                'by the strtoull/strtoll/strtoul/strtol/atoi/inet_pton/uuid_parse cases',
@@ -389,6 +394,31 @@ def sweep_values(bits, signed):
     return range(0, 1 << bits)
 
 
+INJECT_BASES = [('su 64 0', '12345'), ('su 8 1', '200'), ('ss 32 1', '-12345'), ('ss 64 0', '77'),
+                ('hu 8', '1f'), ('hu 16', '7a70'), ('hu 32', '89abcdef'), ('hu 64', '0123456789abcdef'),
+                ('hs 8', '7f'), ('hs 64', 'fedcba9876543210'), ('phu 32', '0x89abcdef'), ('phs 16', '0x7fff'),
+                ('uid', '7a70:00000001'), ('mac', '01:23:45:67:89:ab'), ('mac', '1.2.3.4.5.f'),
+                ('ip4', '192.168.1.20'), ('ip6', 'fe80::1:2'), ('ip6', '::ffff:1.2.3.4'), ('sa', '10.0.0.1:5568'),
+                ('cid', '01020304-0506-0708-090a-0b0c0d0e0f10'), ('bool', 'true'), ('boolt', 'enabled'),
+                ('dmx', '1,22,255'), ('strtoull 16', '1f'), ('strtoll 10', '42'), ('atoi', '42')]
+
+
+def byte_injection_cases(rng):
+    specials = list(range(128, 256)) + list(range(1, 32)) + [127]
+    for op, base in INJECT_BASES:
+        b = base.encode('latin-1')
+        n = len(b)
+        libc = op.split(' ')[0] in ('strtoull', 'strtoll', 'atoi')
+        for x in specials:
+            ch = bytes([x])
+            variants = [ch + b[1:], b[:n // 2] + ch + b[n // 2 + 1:], b[:-1] + ch, ch + b, b + ch,
+                        b[:n // 2] + ch + b[n // 2:]]
+            for v in variants:
+                if libc and b'\0' in v:
+                    continue
+                yield '%s %s' % (op, v.hex())
+
+
 PARSE_OPS = ('su', 'ss', 'hu', 'hs', 'phu', 'phs', 'bool', 'boolt', 'uid', 'mac', 'dmx', 'dmxv', 'ip4', 'ip6', 'sa', 'cid')
 
 
@@ -423,7 +453,15 @@ def gen_cases0(rng, tier):
             yield 'dirty %d dmx %s' % (k + 5 * rng.randrange(1, 100), hx(t))
     # ---- printers from several threads at once (first, so that they land in different shards) ------
     for i in range(4 if quick else 8):
-        yield 'thr %d %d %d' % ((2, 4)[i % 2], 20000 if quick else 50000, rng.randrange(1 << 32))
+        yield 'thr %d %d %d' % ((2, 4)[i % 2], 8000 if quick else 20000, rng.randrange(1 << 32))
+    # the same conversions in FRESH processes, so that the first use of every printer/parser happens
+    # on all threads at once (first-use races on lazily filled tables / static locals)
+    for i in range(4 if quick else 8):
+        yield 'thrf %d %d %d %d' % ((2, 4, 3, 8)[i % 4], 200, rng.randrange(1 << 32), 5 if quick else 10)
+    # ---- every byte >= 0x80 and every control byte at the first / middle / last position of a valid
+    # text (replacing a character, and prepended / appended), for every parse entry point ------------
+    for c in byte_injection_cases(rng):
+        yield c
     # ---- operator<< on a stream that already carries format state ---------------------------------
     for i in range(1400 * (1 if quick else 10)):
         ty = ('uid', 'ip4', 'ip6', 'sa', 'mac', 'cid', 'dmx')[i % 7]
